@@ -48,6 +48,8 @@ func c01Rules(p *core.Prog, r *core.Run) {
 	c06State(p, r, m, "C01.hrr")
 	// the reconstructed inner hello is exact (extension order matters: pre_shared_key must stay last)
 	c03Splice(p, r, m, "C01.inner")
+	// every key the server was given is a candidate
+	c09Keys(p, r, m, "C01.keys")
 	// stale
 	keyLoopExits(p, r, m, "C01.stale")
 	// recsize
@@ -161,6 +163,13 @@ func hpkeTables(p *core.Prog, r *core.Run, rule string) {
 	if pk == nil {
 		r.Undecided(rule, "hpke", "-", "package internal/hpke not loaded")
 		return
+	}
+	// the package's constructors hand back a context or an error, never
+	// neither: "no context, no error" means "first hello without enc" to the caller
+	for _, n := range []string{"SetupReceipient", "ParseHPKEPrivateKey"} {
+		if fn := p.Func(HPKE, n); fn != nil {
+			valueOrError(p, r, rule, "hpke."+n, fn, nil)
+		}
 	}
 	intOf := func(e ast.Expr) (int64, bool) {
 		v, ok := constOf(p, HPKE, e)
@@ -329,4 +338,46 @@ func serverHelloPrefix(p *core.Prog, r *core.Run, rule string) {
 	}
 	want := "ReadUint8(local:msgType) Skip(3) ReadUint16(LegacyVersion) ReadBytes(Random,32)"
 	r.Check(rule, "parseServerHello:prefix", strings.Join(seq, " ") == want, p.Pos(fn.Pos()), "ServerHello is read as msg_type(1) length(3) legacy_version(2) random(32): %s", strings.Join(seq, " "))
+	// the extensions are carried, not interpreted: a HelloRetryRequest has the
+	// ServerHello's shape but other extension bodies (its key_share is a bare
+	// group), so a parser that looks inside them refuses real retries
+	dataCursors := map[*ssa.Alloc]bool{}
+	for _, b := range fn.Blocks {
+		for _, in := range b.Instrs {
+			st, ok := in.(*ssa.Store)
+			if !ok {
+				continue
+			}
+			a := p.X(st.Addr)
+			if !(a.Op == "field" && a.Name == "Data") {
+				continue
+			}
+			p.X(st.Val).Walk(func(e *core.Expr) bool {
+				if e.Op == "out" && strings.Contains(e.Name, "LengthPrefixed") {
+					if c, ok := e.Val.(*ssa.Call); ok && e.Idx >= 0 && e.Idx < len(c.Call.Args) {
+						if al := p.CellRoot(c.Call.Args[e.Idx]); al != nil {
+							dataCursors[al] = true
+						}
+					}
+				}
+				return true
+			})
+		}
+	}
+	nInside := 0
+	for _, s := range callSites(p, []*ssa.Function{fn}, `\(\*?cryptobyte\.String\)\.(Read.*|Skip|Empty)`) {
+		args := s.Instr.Common().Args
+		if len(args) == 0 {
+			continue
+		}
+		recv := args[0]
+		if u, ok := recv.(*ssa.UnOp); ok {
+			recv = u.X
+		}
+		if al := p.CellRoot(recv); al != nil && dataCursors[al] {
+			nInside++
+			r.Check(rule, fmt.Sprintf("parseServerHello:extension-body#%d", nInside), false, p.InstrPos(s.Instr), "%s looks inside an extension's body; a HelloRetryRequest's extensions do not have the ServerHello's layout", s.X.Name)
+		}
+	}
+	r.Check(rule, "parseServerHello:extensions-carried", len(dataCursors) >= 1 && nInside == 0, p.Pos(fn.Pos()), "extension bodies are stored as they are and not parsed (%d reads inside them)", nInside)
 }
